@@ -11,8 +11,9 @@
 (* Verdict level: every batch the abstract window (WindowTime) emits must   *)
 (* be the next batch the sink saw, with the same end time and the same      *)
 (* points in the same order, and at End nothing may be left over; the       *)
-(* property invariants are evaluated on every step.  Where the              *)
-(* documentation leaves the first due time open (FirstDue) TLC chooses.     *)
+(* property invariants are evaluated on every step.  With fillPeriod the    *)
+(* first batch must be delayed to a full period for every period/every      *)
+(* combination (FirstDue is a single value).                                *)
 (* Drift level: the ring model (WindowRing) runs in lock step; a step after *)
 (* which it no longer refines the abstract buffer is reported ("RING-DRIFT") *)
 (* but is not a verdict.  Branches taken by the ring model are counted in   *)
